@@ -711,12 +711,16 @@ func GetStorageDetails() (map[string]StorageStats, error) {
 				}
 				leaf, wasSeen := isLeaf[versionID]
 				if !wasSeen {
+					manager.idMutex.RLock()
 					uuid, found := manager.versionToUUID[versionID]
+					manager.idMutex.RUnlock()
 					if !found {
 						dvid.Errorf("got key with version %d and no uuid mapping: skipping\n", versionID)
 						continue
 					}
+					manager.repoMutex.RLock()
 					repo, found := manager.repos[uuid]
+					manager.repoMutex.RUnlock()
 					if !found {
 						dvid.Errorf("got key with version %d, uuid %s, but no repo!\n", versionID, uuid)
 						continue
